@@ -71,11 +71,12 @@ def projN (o : Op) (args : List Expr) (blocks : List (List Expr)) (n : Nat) : Li
 
 /-- `cast(a, b)` for every slot; `unreachable!` if some pair has no conversion. -/
 def castsFor : List CoreTy → List CoreTy → G (List Bitcast)
-  | a :: as, b :: bs => do
-      let c ← match cast a b with | some c => pure c | none => throw .unreachable
-      let cs ← castsFor as bs
-      pure (c :: cs)
-  | _, _ => pure []
+  | a :: as, b :: bs =>
+      match cast a b, castsFor as bs with
+      | none, _ => .error .unreachable
+      | some _, .error e => .error e
+      | some c, .ok cs => .ok (c :: cs)
+  | _, _ => .ok []
 
 /-- `Bitcasts { casts }` is emitted only if some cast is not `None`; it converts every slot. -/
 def applyCasts (casts : List Bitcast) (xs : List Expr) : List Expr :=
